@@ -319,12 +319,4 @@ def invarianceClauses (variants : List SpecC03.Sym) (answers : List Int) : List 
       ("found-or-not-independent-of-numbering-and-dual", answers.all fun a => (a == -1) == (answers.headD 0 == -1)),
       ("sheet-number-independent-of-numbering-and-dual", answers.all (· == answers.headD 0)) ]
 
-/-! ### monitors for the hypotheses of the phase-2 theorems (Props/C15 §4–§6) -/
-
-def letterInRange (n : Nat) (x : Int) : Bool := (1 ≤ x && x ≤ n) || (1 ≤ -x && -x ≤ n)
-
-/-- the decidable part of `GroupOK`: relators and cone words over the letters `±1..±n` -/
-def groupOkB (n : Nat) (relators : List (List Int)) (cones : List (List Int × Nat)) : Bool :=
-  relators.all (fun w => w.all (letterInRange n)) && cones.all (fun c => c.1.all (letterInRange n))
-
 end DSymVerif.SpecC15
